@@ -34,6 +34,7 @@ fn main() {
         ("replay", "syncer") => syncer::replay(&args),
         ("record", "syncer-aging") => syncer::record_aging(&args),
         ("record", "daser") => daser::record(&args),
+        ("replay", "daser") => daser::replay(&args),
         ("record", "pruner") => pruner::record(&args),
         ("record", "store") => store::record(&args),
         _ => tool_error(&format!("unknown mode/model {mode}/{model}")),
